@@ -102,3 +102,17 @@ func OnBoundary(s string, p int) bool {
 func SameFloat(a, b float64) bool {
 	return math.Float64bits(a) == math.Float64bits(b)
 }
+
+// Lemma marks a ghost block in which lemma functions are invoked: the engine
+// checks their preconditions at this point and may use their postconditions.
+func Lemma(f func()) {}
+
+// Same reports whether a and b are the same value; for slices: the same backing
+// array and length (what "the function returned its argument unchanged" means).
+func Same(a, b any) bool {
+	va, vb := reflect.ValueOf(a), reflect.ValueOf(b)
+	if va.Kind() == reflect.Slice && vb.Kind() == reflect.Slice {
+		return va.Len() == vb.Len() && va.Pointer() == vb.Pointer()
+	}
+	return reflect.DeepEqual(a, b)
+}
